@@ -35,7 +35,7 @@ REACH = {
               "omitted_default_cases": 50, "recursive_cases": 20, "by_name_cases": 50},
     "thorough": {"cases_checked": 100000, "back_to_back_streams": 5000},
 }
-SOPTS = dict(bytes_defaults=0.0)
+SOPTS = dict(bytes_defaults=0.0, null_ns_inside=0.05)
 DOPTS = dict(omit_nullable=0.1)
 
 
